@@ -11,6 +11,38 @@ MUTATE_FS = (r"fs::File::(set_len|sync_all|sync_data|create)$|fs::(remove_file|r
              r"io::impls::<impl std::io::Write for .*>::(write|write_all)$|FileExt>?::(write_at|write_all_at)$")
 
 
+def _enum_latch_clear_at(ctx, g, cn):
+    """the latch is a private enum field of the iterator instead of an Option: in the product of the function that holds the decode, some
+    field of `self` takes several variants, and every state at the decode has it in one and the same variant (the test went the 'clear' way)"""
+    inst = g.inst(cn)
+    top = inst
+    while top.parent is not None and top.parent.id != 0 and not top.key.endswith("::next"):
+        top = top.parent
+    try:
+        P2 = ctx.product(top.key)
+    except Exception:
+        return False
+    g2 = P2.g
+    decs = [n for n in inlined_calls(g2, c09.DECODE_KEY, P2.live)]
+    if len(decs) != 1:
+        return False
+    seen_variants = {}
+    for (_n, ft) in P2.nodes:
+        for slot, (v, _o) in ft:
+            if slot[0] == 0 and slot[1] == 1 and len(slot[2]) == 2 and slot[2][0] == "*":
+                seen_variants.setdefault(slot, set()).add(v)
+    at = [P2.tags(pi) for pi in P2.pnodes_of(decs)]
+    if not at:
+        return False
+    for slot, vs in seen_variants.items():
+        if len(vs) < 2:
+            continue
+        here = {t.get(slot, (None, None))[0] for t in at}
+        if len(here) == 1 and None not in here:
+            return True
+    return False
+
+
 def run(ctx, rep):
     rep.rule("R10.1", "with truncate_incomplete_record() false every decode error ends in an Err return of open, with no file-mutating "
                       "event (set_len, write, create_new, unlink, sync) after it; with it true the truncation obeys R09.3")
@@ -253,6 +285,8 @@ def run(ctx, rep):
                           path=describe_path(P, [k[0] for k in path_to(seen3, b1)]))
         else:
             rep.ok("R10.3", "decode only after offset != file size", "", where=g.where(cn))
+        if b2 and _enum_latch_clear_at(ctx, g, cn):
+            b2 = None
         if b2:
             rep.violation("R10.3", "open|decode-after-latched-error", "record iterator",
                           "a record can be decoded although the iterator has already reported an error", where=g.where(cn))
